@@ -26,6 +26,7 @@ FINGERPRINTS = [
                                     "_has_enough_int_keys", "_count_int_keys", "_is_int_key"]),
     (D + "config.py", ["MagicNumberConfig"]),
     (D + "violation_builder.py", ["ViolationBuilder"]),
+    (D + "typescript_ignore_checker.py", ["TypeScriptIgnoreChecker"]),
     ("src/analyzers/rust_context.py", ["has_test_attribute", "has_cfg_test_attribute", "is_inside_test", "_is_test_context"]),
     ("src/analyzers/ast_utils.py", ["build_parent_map", "_build_parent_map_recursive"]),
 ]
@@ -128,6 +129,121 @@ def fallback_chains():
     enum = find_class(parse("src/core/constants.py"), "Language")
     names = {st.targets[0].id: const_value(st.value) for st in enum.body if isinstance(st, ast.Assign)}
     return out + defn("cfg_language_keys", "list string", coq_str_list([names[k] for k in langs]))
+
+
+def switches():
+    """the `enabled` and `ignore` keys of the section and how a file is matched against an ignore pattern"""
+    cls = find_class(parse(D + "config.py"), "MagicNumberConfig")
+    f = find_func(cls, "from_dict")
+    src = ast.unparse(f)
+    if "enabled=config.get('enabled', True)" not in src:
+        raise Unsupported("from_dict: enabled=config.get('enabled', True)")
+    if "ignore_patterns = config.get('ignore', [])" not in src or "ignore=ignore_patterns" not in src \
+            or "if not isinstance(ignore_patterns, list):" not in src:
+        raise Unsupported("from_dict: ignore patterns")
+    fld = [st for st in cls.body if isinstance(st, ast.AnnAssign) and isinstance(st.target, ast.Name) and st.target.id == "enabled"]
+    if len(fld) != 1 or const_value(fld[0].value) is not True:
+        raise Unsupported("dataclass default of enabled")
+    chk = find_func(find_class(parse("src/core/base.py"), "MultiLanguageLintRule"), "check")
+    flat = lambda node: " ".join(ast.unparse(node).split())
+    if "if not config.enabled: return []" not in flat(chk):
+        raise Unsupported("MultiLanguageLintRule.check: enabled test")
+    rule = find_class(parse(D + "linter.py"), "MagicNumberRule")
+    for fn in ("_check_python", "_check_typescript", "_check_rust"):
+        if "if self._is_file_ignored(context, config): return []" not in flat(find_func(rule, fn)):
+            raise Unsupported(f"{fn}: ignored-file test")
+    ig = ast.unparse(find_func(rule, "_is_file_ignored"))
+    if "return any((self._matches_pattern(file_path, pattern) for pattern in config.ignore))" not in ig:
+        raise Unsupported("_is_file_ignored shape")
+    m = find_func(rule, "_matches_pattern")
+    modes = []
+    for st in m.body:
+        if isinstance(st, ast.If) and ast.unparse(st.body[0]) == "return True" and not st.orelse:
+            t = ast.unparse(st.test)
+            if t == "file_path.match(pattern)":
+                modes.append("path_match")
+            elif t == "pattern in str(file_path)":
+                modes.append("substring")
+            else:
+                raise Unsupported(f"_matches_pattern: unexpected test {t}")
+        elif isinstance(st, ast.Return) and ast.unparse(st) == "return False":
+            continue
+        elif isinstance(st, ast.Expr) and isinstance(st.value, ast.Constant):
+            continue
+        else:
+            raise Unsupported(f"_matches_pattern: unexpected statement {ast.unparse(st)[:50]}")
+    return (defn("cfg_key_enabled", "string", coq_string("enabled")) + defn("cfg_enabled_default", "bool", "true")
+            + defn("cfg_key_ignore", "string", coq_string("ignore")) + defn("ignore_match_modes", "list string", coq_str_list(modes)))
+
+
+def _generic_ignore(fn: ast.FunctionDef, var: str):
+    """if M not in line: return False; after = line.split(M)[1].split(S)[0]; return B not in after  ->  (M, S, B)"""
+    flat = " ".join(ast.unparse(fn).split())
+    st = [x for x in fn.body if not (isinstance(x, ast.Expr) and isinstance(x.value, ast.Constant))]
+    if len(st) != 3 or not isinstance(st[0], ast.If) or not isinstance(st[1], ast.Assign) or not isinstance(st[2], ast.Return):
+        raise Unsupported(f"{fn.name}: shape")
+    t = st[0].test
+    if not (isinstance(t, ast.Compare) and isinstance(t.ops[0], ast.NotIn) and ast.unparse(t.comparators[0]) == var):
+        raise Unsupported(f"{fn.name}: marker test")
+    marker = const_value(t.left)
+    v = st[1].value
+    try:
+        split = const_value(v.value.func.value.slice.value) if False else None
+    except Exception:
+        split = None
+    src = ast.unparse(v)
+    import re as _re
+    m = _re.fullmatch(_re.escape(var) + r"\.split\((.+)\)\[1\]\.split\((.+)\)\[0\]", src)
+    if not m or ast.literal_eval(m.group(1)) != marker:
+        raise Unsupported(f"{fn.name}: after-part")
+    sep = ast.literal_eval(m.group(2))
+    r = st[2].value
+    if not (isinstance(r, ast.Compare) and isinstance(r.ops[0], ast.NotIn) and ast.unparse(r.comparators[0]) == "after_ignore"):
+        raise Unsupported(f"{fn.name}: bracket test")
+    return marker, sep, const_value(r.left)
+
+
+def directives():
+    """the linter's own line-directive checks (next to the shared ignore parser): generic `thailint: ignore`, noqa, and the
+    TypeScript rule-specific marker"""
+    rule = find_class(parse(D + "linter.py"), "MagicNumberRule")
+    flat = lambda node: " ".join(ast.unparse(node).split())
+    if "if self._ignore_parser.should_ignore_violation(violation, context.file_content or ''): return True return self._check_generic_ignore(violation, context)" not in flat(find_func(rule, "_should_ignore")):
+        raise Unsupported("_should_ignore shape")
+    if "if self._has_generic_thailint_ignore(line_text): return True return has_python_noqa(line_text)" not in flat(find_func(rule, "_has_generic_ignore_directive")):
+        raise Unsupported("_has_generic_ignore_directive shape")
+    pm, ps, pb = _generic_ignore(find_func(rule, "_has_generic_thailint_ignore"), "line_text")
+    vu = parse("src/core/violation_utils.py")
+    def needle(fn):
+        r = [st.value for st in find_func(vu, fn).body if isinstance(st, ast.Return)]
+        if len(r) != 1 or not (isinstance(r[0], ast.Compare) and isinstance(r[0].ops[0], ast.In) and ast.unparse(r[0].comparators[0]) == "line_text"):
+            raise Unsupported(f"{fn} shape")
+        return const_value(r[0].left)
+    if "return lines[violation.line - 1].lower()" not in flat(find_func(vu, "get_violation_line")):
+        raise Unsupported("get_violation_line: lower-cased line")
+    tsc = find_class(parse(D + "typescript_ignore_checker.py"), "TypeScriptIgnoreChecker")
+    f = find_func(tsc, "_has_typescript_ignore_directive")
+    st = [x for x in f.body if not (isinstance(x, ast.Expr) and isinstance(x.value, ast.Constant))]
+    if len(st) != 3 or not all(isinstance(x, ast.If) for x in st[:2]) or flat(st[2]) != "return has_typescript_noqa(line_text)":
+        raise Unsupported("_has_typescript_ignore_directive shape")
+    t0 = st[0].test
+    if not (isinstance(t0, ast.Compare) and isinstance(t0.ops[0], ast.In) and ast.unparse(t0.comparators[0]) == "line_text" and flat(st[0].body[0]) == "return True"):
+        raise Unsupported("TypeScript specific marker")
+    spec_marker = const_value(t0.left)
+    t1 = st[1].test
+    if not (isinstance(t1, ast.Compare) and isinstance(t1.ops[0], ast.In)):
+        raise Unsupported("TypeScript generic marker")
+    tm = const_value(t1.left)
+    inner = flat(st[1])
+    import re as _re
+    m = _re.search(r"after_ignore = line_text\.split\((.+?)\)\[1\]\.split\((.+?)\)\[0\] if (.+?) not in after_ignore: return True", inner)
+    if not m or ast.literal_eval(m.group(1)) != tm:
+        raise Unsupported("TypeScript generic after-part")
+    return (defn("py_dir_generic", "string * string * string", f"({coq_string(pm)}, {coq_string(ps)}, {coq_string(pb)})")
+            + defn("py_dir_noqa", "string", coq_string(needle("has_python_noqa")))
+            + defn("ts_dir_specific", "string", coq_string(spec_marker))
+            + defn("ts_dir_generic", "string * string * string", f"({coq_string(tm)}, {coq_string(ast.literal_eval(m.group(2)))}, {coq_string(ast.literal_eval(m.group(3)))})")
+            + defn("ts_dir_noqa", "string", coq_string(needle("has_typescript_noqa"))))
 
 
 def max_small():
@@ -528,6 +644,8 @@ ITEMS = [
     ("allowed_fallbacks", allowed_fallbacks),
     ("max_small", max_small),
     ("fallback_chains", fallback_chains),
+    ("switches", switches),
+    ("directives", directives),
     ("cfg_section_keys", section_keys),
     ("py_numeric_types", py_numeric_types),
     ("py_context_guards", py_context_guards),
